@@ -98,11 +98,11 @@ def call_result_edges(body, call, ok=True):
     for bb, si in body.switches():
         cond = si["cond"]
         if si["kind"] == "variant":
-            root = strip(cond)
+            root = unawait(cond)
             # through Try::branch
             via_try = False
             if root[0] == "call" and root[1].fn == "core::ops::try_trait::Try::branch":
-                root = strip(root[2][0])
+                root = unawait(root[2][0])
                 via_try = True
             if root[0] == "call" and same_call(root[1], call):
                 for (t, lab, m) in si["edges"]:
@@ -117,7 +117,7 @@ def call_result_edges(body, call, ok=True):
             c = cond
             if c[0] == "call" and c[1].fn in ("core::result::Result::<T, E>::is_err", "core::result::Result::<T, E>::is_ok",
                                               "core::option::Option::<T>::is_some", "core::option::Option::<T>::is_none"):
-                inner = strip(c[2][0])
+                inner = unawait(c[2][0])
                 if inner[0] == "call" and same_call(inner[1], call):
                     positive_fn = c[1].fn.endswith(("is_ok", "is_some"))
                     for (t, lab, m) in si["edges"]:
